@@ -795,6 +795,11 @@ class ModuleVistor(NodeVisitor):
         if isinstance(value, Str):
             attr = self.builder.currentAttr
             if attr is not None:
+                if attr.parsed_docstring is not None and attr.docstring is None:
+                    # documented by a field (@ivar, @cvar, @var) of the docstring of its class or module
+                    attr.report('Docstring ignored: the variable is already documented '
+                                f'by a field in the docstring of {attr.parent.fullName() if attr.parent else "its parent"}',
+                                lineno_offset=value.lineno - (attr.linenumber or value.lineno))
                 attr.setDocstring(value)
                 self.builder.currentAttr = None
         self.generic_visit(node)
